@@ -212,6 +212,11 @@ def compare(script, per_op, prop, line_lo, line_hi, counters):
                         # explained by a recorded finding (if it is listed): keep comparing the rest
                         continue
                     break
+            if not mismatch and not exp.get("restored"):
+                bad = _size_constant_failure(got_list, got, counters)
+                if bad is not None:
+                    fail(bad[0], [bad[1]], bad[2], line, {"kind": bad[1]}, pr="C01")
+                    mismatch = True
             _probe_observation(exp, got, counters)
             st = exp.get("stream")
             if st is not None and prop == "C01":
@@ -278,6 +283,36 @@ def compare(script, per_op, prop, line_lo, line_hi, counters):
     return failures
 
 
+def _size_constant_failure(got_list, got, counters):
+    """IntrinsicSizeIn*() must agree with SizeIsKnown()/SizeIn*(); Min/MaxSizeIn* are always Ok and
+    bound every size actually reported.  Returns (class, kind, detail) or None."""
+    for key, value in got_list:
+        if not key.endswith(".size_known"):
+            continue
+        stem = key[: -len(".size_known")]
+        if stem + ".max_size" not in got:
+            continue  # a driver without these observables
+        counters["size_constant_checks"] = counters.get("size_constant_checks", 0) + 1
+        mx, mn = got.get(stem + ".max_size"), got.get(stem + ".min_size")
+        if got.get(stem + ".intrinsic_ok") != value:
+            return ("intrinsic_size_disagrees", "struct.intrinsic_ok", {"key": stem, "size_known": value, "intrinsic_ok": got.get(stem + ".intrinsic_ok")})
+        if value == "1" and got.get(stem + ".intrinsic") != got.get(stem + ".size"):
+            return ("intrinsic_size_disagrees", "struct.intrinsic", {"key": stem, "size": got.get(stem + ".size"), "intrinsic": got.get(stem + ".intrinsic")})
+        if mx == "notok" or mn == "notok":
+            return ("size_constant_not_ok", "struct.max_size" if mx == "notok" else "struct.min_size", {"key": stem, "max": mx, "min": mn})
+        try:
+            if int(mn) > int(mx):
+                return ("size_outside_min_max", "struct.min_size", {"key": stem, "min": mn, "max": mx})
+            if value == "1":
+                counters["probe.size_checked_against_min_max"] = counters.get("probe.size_checked_against_min_max", 0) + 1
+                size = int(got[stem + ".size"])
+                if not int(mn) <= size <= int(mx):
+                    return ("size_outside_min_max", "struct.size", {"key": stem, "size": size, "min": mn, "max": mx})
+        except (KeyError, ValueError, TypeError):
+            return ("size_constant_not_ok", "struct.max_size", {"key": stem, "max": mx, "min": mn, "size": got.get(stem + ".size")})
+    return None
+
+
 def _key_kind(key):
     last = key.rsplit(".", 1)[-1]
     if last.startswith("has_"):
@@ -291,8 +326,12 @@ def _is_known(key, old, history):
     stem = key.rsplit(".", 1)[0]
     if last.startswith("has_"):
         return old in ("T", "F")
-    if last in ("ok", "complete", "size_known"):
+    if last in ("ok", "complete", "size_known", "intrinsic_ok"):
         return old == "1"
+    if last in ("max_size", "min_size"):
+        return True
+    if last == "intrinsic":
+        return history.get(stem + ".intrinsic_ok") == "1"
     if last == "size":
         return history.get(stem + ".size_known") == "1"
     if last == "val":
